@@ -8,7 +8,7 @@ import argparse, importlib, json, os, sys, time, traceback
 import atexit, shutil
 
 sys.path.insert(0, os.path.dirname(os.path.abspath(__file__)))
-from rbpv import common as C, build as B
+from rbpv import common as C, build as B, bb as BB
 from rbpv.ctx import Ctx
 
 ALL = ["C%02d" % i for i in range(1, 18)]
@@ -59,6 +59,17 @@ def obligations(mod, ctx):
     for b in B.grep_forbidden(files):
         problems.append({"kind": "forbidden-text", "where": b})
     return len(thms) + len([p for p in problems if p["kind"] == "missing-theorem"]), discharged, problems, thms
+
+
+BTC, FORK = ("bitcoin", "testnet3"), ("litecoin", "dogecoin", "namecoin")
+LITERAL_CALLBACKS = {
+    "C01": (["csvdump"], BTC + FORK[:1], False), "C02": (["csvdump", "opreturn", "simplestats"], BTC[:1] + FORK[:1], False), "C03": (["csvdump"], BTC[:1], False),
+    "C04": (["csvdump"], BTC[:1], False), "C05": (["csvdump"], BTC, False), "C06": (["csvdump"], FORK, False), "C07": (["unspentcsvdump"], BTC[:1] + FORK[:1], False),
+    "C08": (["balances"], BTC[:1] + FORK[:1], False), "C09": (["csvdump"], BTC[:1] + FORK[:1], True), "C10": (["csvdump", "unspentcsvdump", "balances"], BTC[:1], False),
+    "C11": (["csvdump"], BTC[:1], False), "C12": (["csvdump"], ("namecoin", "dogecoin"), False), "C13": (["simplestats", "balances"], BTC[:1] + FORK[:1], False),
+    "C14": (["csvdump", "unspentcsvdump", "balances", "opreturn", "simplestats"], BTC[:1] + FORK[:1], False), "C15": (["simplestats"], BTC[:1] + FORK[:1], False),
+    "C16": (["opreturn"], BTC[:1] + FORK[:1], False), "C17": (["csvdump"], BTC[:1], False),
+}
 
 
 def known_match(prop, d):
@@ -132,6 +143,15 @@ def main():
                 if not [d for d in ctx.disagreements if d["in_domain"]]:
                     raise
                 ctx.notes.append("harness error after the first disagreement: %r" % e)
+            # literal-directed effort: scenarios built around integer literals that are new in /repo's sources (none on the unchanged tree)
+            try:
+                spec = LITERAL_CALLBACKS.get(prop)
+                if spec:
+                    BB.literal_family(ctx, spec[0], coins=spec[1], verify=spec[2])
+            except Exception as e:
+                if not [d for d in ctx.disagreements if d["in_domain"]]:
+                    raise
+                ctx.notes.append("harness error in the literal-directed family: %r" % e)
             if problems and not [d for d in ctx.disagreements if d["in_domain"]]:
                 # a proof obligation broke but nothing disagreed: search harder for a failing input
                 ctx.scale = max(ctx.scale, 5)
